@@ -25,6 +25,9 @@ def _extras(tier):
             for srcs in ([L, R], [L3, R], [L, R1]):
                 out.append(Program(f"L.merge(R, on='a', how={how!r}, indicator=True{kw})", srcs, family="F07", note="merge-indicator", env_globals={"dx": dx}))
         out.append(Program(f"L.merge(R, on='a', how={how!r}, suffixes=('_l', '_r'), broadcast=True)", [L3, R], family="F07", note="merge-suffixes", env_globals={"dx": dx}))
+    # frame <op> reduction-of-the-frame: pandas keeps the column order when the series is labelled like the columns
+    for text in ("M - M.sum()", "(M - M.mean()) / M.std()", "M[['c', 'b']] - M.sum()", "L - L.sum()", "(M - M.min()).nlargest(2, 'c')"):
+        out.append(Program(text, [L, M] if "L" in text else [M], family="F07", note="frame-op-reduction", env_globals={"dx": dx}))
     for text in ("dx.concat([L, M])", "dx.concat([M, L])", "dx.concat([L, M, L])", "dx.concat([L[['a', 'b']], M[['b', 'a']]])", "dx.concat([L, M], join='inner')",
                  "dx.concat([L.a, M.a])", "dx.concat([L.a, M.c])", "dx.concat([L, M])[['a', 'c']]", "dx.concat([L, M], interleave_partitions=True)",
                  "dx.concat([L, M.rename(columns={'c': 'z'})])"):
